@@ -36,10 +36,11 @@ func FlattenItemCollection(col ItemCollection) ItemCollection {
 	if col == nil {
 		return col
 	}
-	for k, it := range ItemCollectionDeduplication(&col) {
-		if iri := it.GetLink(); iri != "" {
-			col[k] = iri
-		}
+	// NOTE: the indexes of the de-duplicated IRIs do not match the ones of the collection when it
+	// contains nil or non addressable entries, so the remaining entries get flattened one by one
+	_ = ItemCollectionDeduplication(&col)
+	for k, it := range col {
+		col[k] = FlattenToIRI(it)
 	}
 	return col
 }
